@@ -205,6 +205,7 @@ func canonObject(o types.Object) types.Object {
 func (p *Prog) computeAliases() {
 	objAlias = map[types.Object]types.Object{}
 	p.helperSite = map[*ast.FuncDecl]*ast.CallExpr{}
+	p.helperOwner = map[string]string{}
 	defer func() {
 		for _, m := range p.parents {
 			p.bridgeHelpers(m)
@@ -233,6 +234,7 @@ func (p *Prog) computeAliases() {
 		site := sites[0]
 		if site.From.Pkg == h.Pkg && site.From != h {
 			p.helperSite[h.Decl] = site.Site
+			p.helperOwner[h.Key] = site.From.Key
 		}
 		cinfo := site.From.Pkg.TypesInfo
 		hinfo := h.Pkg.TypesInfo
